@@ -367,6 +367,10 @@ func runC20(c *core.Case) {
 			r.Invalid = "not allowed for the node's role (not primary)"
 		case nameCls != "db" && (r.Path == "/tx" || (r.Path == "/halt" && r.Method == "DELETE")):
 			r.Invalid = "refers to a database/lock that must already exist"
+		case nameCls == "weird" && q.Get("name") != "db-journal" && (r.Path == "/import" || r.Path == "/halt"):
+			// a database is a file in the mount's flat directory: a name with a path
+			// separator, "." or a NUL, or longer than a file name may be, names none
+			r.Invalid = "database name is not a file name"
 		case (nameCls == "empty" || nameCls == "missing" || nameCls == "rawgarbage") && (r.Path == "/import" || r.Path == "/halt"):
 			r.Invalid = "database name missing or malformed"
 		case (idCls == "garbage" || idCls == "missing" || idCls == "huge" || idCls == "rawgarbage" || idCls == "zero") && (r.Path == "/halt" || r.Path == "/tx"):
